@@ -13,7 +13,8 @@ ALL_OPTS = {'faults': True, 'body_effects': True, 'interrupts': True, 'control':
 class RecorderProp(Prop):
     CORRESPONDENCE = 'PlaybackModel.Recorder (exec / runOperation / runPlay / runPlain) vs playback.tape_recorder.TapeRecorder'
     PARALLEL = 14
-    CASE_WATCHDOG = 20      # seconds; a case normally takes milliseconds. A run that blocks is interrupted (engine.Hang) and observed
+    CASE_WATCHDOG = 10      # seconds per period; a case normally takes milliseconds. A run found blocked at two alarms in a row
+                            # (same instruction, no CPU time used) is interrupted (engine.Hang) and observed
     TRUSTED = ['correspondence harness: harness/recorder_sim.py (real TapeRecorder behind a spy cassette, scripted PRNG and '
                'clock), harness/recorder_gen.py, Lean driver Drive/Recorder.lean (script -> Prog embedding)',
                'values are opaque atoms in the recorder model: serialisation faithfulness is C06/C07; structured keys, '
